@@ -79,6 +79,9 @@ def run(ctx, spec):
             ctx.violation(v["key"], v["msg"], {
                 "engine": "e1", "harness": r["harness"], "scenario": r["scenario"],
                 "violation": v})
+    slow = sorted(((r.get("wall_s", 0), r.get("scenario")) for r in results), reverse=True)[:5]
+    if os.environ.get("VERIF_VERBOSE"):
+        print("slowest scenarios:", slow)
     if errors and not ctx.violations:
         raise EngineError("; ".join(errors[:5]))
     viol_cap_only = [c for c in capped if "violation cap" in c]
@@ -95,6 +98,7 @@ def run(ctx, spec):
         "capped": real_caps, "exhaustive": not real_caps and not errors,
         "explanation": spec.get("explanation", ""),
         "worker_errors": errors[:5],
+        "slowest_scenarios": [{"scenario": n, "wall_s": round(w, 1)} for w, n in slow],
     }
     ctx.assumptions += spec.get("assumptions", [])
     return runner.finish(ctx, spec.get("level", "model_checking"), cov)
